@@ -45,6 +45,25 @@ impl Parser {
             })
             .collect::<Result<Vec<IrValue>, Error>>()?;
 
+        // Comparisons are only defined between values of the same type (and not on
+        // `JubjubScalar`), exactly as in-circuit.
+        if matches!(instruction.operation, AssertEqual | AssertNotEqual | IsEqual) {
+            use IrValue::*;
+            match (&inps[0], &inps[1]) {
+                (Bool(_), Bool(_))
+                | (Native(_), Native(_))
+                | (BigUint(_), BigUint(_))
+                | (JubjubPoint(_), JubjubPoint(_)) => (),
+                (Bytes(v), Bytes(w)) if v.len() == w.len() => (),
+                (x, y) => {
+                    return Err(Error::Unsupported(
+                        instruction.operation,
+                        vec![x.get_type(), y.get_type()],
+                    ))
+                }
+            }
+        }
+
         let outputs: Vec<IrValue> = match instruction.operation {
             Load(t) => {
                 let values: Vec<_> = instruction
